@@ -98,6 +98,24 @@ Theorem C17_cfg_names_other_refuted :
 Proof. eexists. vm_compute. repeat split. Qed.
 Print Assumptions C17_cfg_names_other_refuted.
 
+(* finding 3: parser.parse_env(mapping) — the environment of this parse is the mapping, but
+   handle_subcommands lets the sub-parsers read os.environ: the mapping names a and says nothing about
+   a's optional inner subcommand; os.environ (not given to this parse) names q below a and a value for
+   it; the result selects a.q with that value.  osenv_clean is the judge's class-3 guard. *)
+Definition x_env_decoy : input :=
+  {| i_env := Some [(s_a, CObj [(s_cmd, CStr s_q); (s_q, CObj [(s_w, CInt 55)])])];
+     i_entry := EEnv [(s_sub, CStr s_a)] |}.
+Theorem C17_env_mapping_decoy_refuted :
+  exists cfg, parse orig 10 p_nested x_env_decoy = Ok cfg /\
+              osenv_clean x_env_decoy = false /\
+              select p_nested (top_level x_env_decoy) = Some s_a /\
+              select p_a (sub_level (top_level x_env_decoy) s_a) = None /\
+              get s_cmd (as_ns (get s_a cfg)) = Some (NStr s_q) /\
+              get s_w (as_ns (get s_q (as_ns (get s_a cfg)))) = Some (NInt 55) /\
+              spec_ok 10 p_nested (top_level x_env_decoy) cfg = false.
+Proof. eexists. vm_compute. repeat split. Qed.
+Print Assumptions C17_env_mapping_decoy_refuted.
+
 (* ---------- WHICH subcommand is chosen: the explicit channels of the rule, in every variant ---------- *)
 (* "The choice is the one named on the command line": for every tree, every option / --cfg item before
    the token (a --cfg value may name another subcommand), every rest of the command line and every
@@ -164,12 +182,19 @@ Print Assumptions C17_any_variant_required_missing_fails.
    error; the --cfg value naming b no longer costs a its settings and the result is what the
    selection rule demands *)
 Example C17_fixed_falsy_input_rejected :
-  parse {| fx_falsy := true; fx_cfg := false |} 10 p_opt x_falsy = Err NoSubcommand.
+  parse {| fx_falsy := true; fx_cfg := false; fx_envmap := false |} 10 p_opt x_falsy = Err NoSubcommand.
 Proof. vm_compute. reflexivity. Qed.
 
 Example C17_fixed_cfg_input_keeps_settings :
-  exists cfg, parse {| fx_falsy := false; fx_cfg := true |} 10 p_nested x_cfg_other = Ok cfg /\
+  exists cfg, parse {| fx_falsy := false; fx_cfg := true; fx_envmap := false |} 10 p_nested x_cfg_other = Ok cfg /\
               get s_cmd (as_ns (get s_a cfg)) = Some (NStr s_q) /\
               get s_w (as_ns (get s_q (as_ns (get s_a cfg)))) = Some (NInt 8) /\
               spec_ok 10 p_nested (top_level x_cfg_other) cfg = true.
+Proof. eexists. vm_compute. repeat split. Qed.
+
+Example C17_fixed_env_mapping_input_ignores_os_environ :
+  exists cfg, parse {| fx_falsy := false; fx_cfg := false; fx_envmap := true |} 10 p_nested x_env_decoy = Ok cfg /\
+              get s_cmd (as_ns (get s_a cfg)) = Some NNone /\
+              get s_q (as_ns (get s_a cfg)) = None /\
+              spec_ok 10 p_nested (top_level x_env_decoy) cfg = true.
 Proof. eexists. vm_compute. repeat split. Qed.
